@@ -399,14 +399,38 @@ def _coord_words(x: float) -> str:
     return s
 
 
+def _edge_user(data) -> Optional[dict]:
+    """the points the user gave for a curved edge (read from the data object of the depot, not from the edge item):
+    Arc -> its point, Spline / PolyLine -> the through points, listed from the first to the second corner of the slot"""
+    cls = type(data).__name__
+    if cls == "Arc":
+        return {"kind": "arc", "pts": [[float(x) for x in data.point.position]]}
+    if cls in ("Spline", "PolyLine"):
+        return {"kind": data.kind, "pts": [[float(x) for x in p] for p in data.curve.array.points]}
+    return None
+
+
+def _payload_words(edge, payload_toks: List[str]) -> List[str]:
+    """what stands between the brackets of a curved edge, for the model: the *positions* the library's edge item
+    prints (arc: third point; spline/polyLine: point_array) as exact rationals -- the model does the printing
+    (`Point.description` / `vector_format`, fmt8) -- or opaque tokens (labels of a projected edge)."""
+    if hasattr(edge, "third_point"):
+        return ["P"] + [_coord_words(x) for x in edge.third_point.position]
+    if hasattr(edge, "point_array"):
+        pts = [[float(x) for x in p] for p in edge.point_array]
+        return ["L", str(len(pts))] + [_coord_words(x) for p in pts for x in p]
+    return ["R"] + w_toks(payload_toks)
+
+
 def _edge_decl(cb, data, p1, p2) -> List[str]:
-    """[repr, valid, preFwd, fwd tokens, preBwd, bwd tokens] as protocol words; the payload is taken from the
-    library's own edge item built on the operation's points (opaque: belongs to C07/C08)."""
+    """[repr, valid, preFwd, fwd payload, preBwd, bwd payload] as protocol words; the points of the payload are taken
+    from the library's own edge item built on the operation's points (their *values* belong to C07/C08), their
+    text is rendered by the model."""
     from classy_blocks.items.edges.factory import factory
     from classy_blocks.items.vertex import Vertex
 
     if data.kind == "line":
-        return [w_str("line"), "0", "!", "0", "!", "0"]
+        return [w_str("line"), "0", "!", "R", "0", "!", "R", "0"]
     out: List[str] = []
     first = True
     for a, b in ((p1, p2), (p2, p1)):
@@ -415,22 +439,22 @@ def _edge_decl(cb, data, p1, p2) -> List[str]:
             edge = factory.create(Vertex(a, 900001), Vertex(b, 900002), data)
             valid = bool(edge.is_valid)
             desc = edge.description if valid else ""
-        toks = tokenize(desc)
-        pre = "!"
-        if toks and toks[0].startswith("//"):
-            m = re.fullmatch(r"(// \S+ )900001 900002(.*)", toks[0])
-            assert m, toks[0]
-            pre = [w_str(m.group(1)), w_str(m.group(2))]
-            toks = toks[1:]
-        if valid:
-            assert toks[1:3] == ["900001", "900002"] and toks[3] == "(" and toks[-1] == ")", toks
-            rep, payload = toks[0], toks[4:-1]
-        else:
-            rep, payload = data.kind, []
+            toks = tokenize(desc)
+            pre = "!"
+            if toks and toks[0].startswith("//"):
+                m = re.fullmatch(r"(// \S+ )900001 900002(.*)", toks[0])
+                assert m, toks[0]
+                pre = [w_str(m.group(1)), w_str(m.group(2))]
+                toks = toks[1:]
+            if valid:
+                assert toks[1:3] == ["900001", "900002"] and toks[3] == "(" and toks[-1] == ")", toks
+                rep, payload = toks[0], _payload_words(edge, toks[4:-1])
+            else:
+                rep, payload = data.kind, ["R", "0"]
         if first:
             out += [w_str(rep), "1" if valid else "0"]
             first = False
-        out += (pre if isinstance(pre, list) else [pre]) + w_toks(payload)
+        out += (pre if isinstance(pre, list) else [pre]) + payload
     return out
 
 
@@ -465,6 +489,7 @@ def declaration(mesh, case: dict, after_calls_applied: bool) -> Dict[str, Any]:
                     "edges": [_edge_decl(cb, d, a, b) for d, a, b in slots],
                     "edge_kinds": [d.kind for d, _, _ in slots],
                     "edge_labels": [list(d.label) if d.kind == "project" else [] for d, _, _ in slots],
+                    "edge_user": [_edge_user(d) for d, _, _ in slots],
                 }
             )
         geo = entity.geometry
@@ -524,7 +549,7 @@ def request_words(decl: dict, case: dict, settings: Dict[str, Any], tails: List[
             else:
                 tail = tails[k]
                 k += 1
-            w += w_toks(tail[0]) + ["1" if tail[1] else "0"]
+            w += [str(len(tail[0]))] + [str(int(x)) for x in tail[0]] + ["1" if tail[1] else "0"]
             for a, b in WIRE_KEYS:
                 w += [str(a), str(b)] + w_toks(tail[2][f"{a}-{b}"])
             for ed in o["edges"]:
@@ -562,15 +587,17 @@ class C06(core.Check):
     )
     assumptions = [
         "the tokenizer of the harness (cbv/props/c06.py: tokenize) maps the text of the file to tokens faithfully",
-        "counts and per-wire grading values of hex lines (their order in the entry is modelled), payloads and validity of curved edges, str() of setting values and of "
-        "float64 coordinates in the VTK are opaque tokens taken from the implementation (C01-C04, C07, C08)",
+        "per-wire grading values of hex lines (their order in the entry is modelled), validity and point positions of curved edges "
+        "(their text is printed by the model), the values of the counts (printed by the model), str() of setting values and of "
+        "float64 coordinates in the VTK are taken from the implementation (C01-C04, C07, C08)",
         "points of one program are either identical up to float noise or >= 100 TOL apart (merging itself is C05)",
         "names, labels and zones contain no blanks, brackets, `;` and do not start with `//`",
     ]
     partial_note = (
         "Theorems: bracket-layer and schema-layer round trip of the parser on every dictionary with semicolon-free "
-        "statements, structural facts of the assembled dictionary. Text <-> token conversion and %.8f digit printing are "
-        "validated by the correspondence, not proved."
+        "statements, structural facts of the assembled dictionary, the text of every %.8f number (reads back to within half a "
+        "unit of the 8th decimal, well-formed). Text <-> token conversion is validated by the correspondence, not proved; "
+        "grading values (str(float)) stay opaque."
     )
 
     def gen_cases(self, rng: random.Random, tier: str) -> List[dict]:
@@ -636,7 +663,7 @@ class C06(core.Check):
         tails = []
         for b in mesh.block_list.blocks:
             wires = {f"{c1}-{c2}": tokenize(b.wires[c1][c2].grading.description) for c1, c2 in WIRE_KEYS}
-            tails.append([[str(a.count) for a in b.axes], all(a.is_simple for a in b.axes), wires])
+            tails.append([[int(a.count) for a in b.axes], all(a.is_simple for a in b.axes), wires])
         settings = {k: v for k, v in mesh.settings.items()}
         obs = {
             "decl": decl,
@@ -846,7 +873,7 @@ class C06(core.Check):
                 want_tail = impl["tails"][k] if k < len(impl["tails"]) else None
                 if want_tail is not None:
                     wires = want_tail[2]
-                    if counts != want_tail[0]:
+                    if counts != [str(n) for n in want_tail[0]]:
                         bad("Block.description:counts", f"block {k}: file {counts}, block object {want_tail[0]}")
                     if gk == "edgeGrading":
                         # blockMesh applies the twelve entries to the edges 0-1, 3-2, 7-6, 4-5, 0-3, ... in this order
@@ -1060,6 +1087,7 @@ class C06(core.Check):
             bad("Edge.description:malformed", str(items)[:100])
             return out
         seen_pairs = set()
+        file_edges: Dict[frozenset, tuple] = {}
         for kw, a, b, payload in zip(items[::4], items[1::4], items[2::4], items[3::4]):
             ix = idx_list([a, b], "Edge.description")
             if ix is None or not isinstance(payload, tuple):
@@ -1069,11 +1097,52 @@ class C06(core.Check):
             if kw == "project":
                 used |= {x for x in payload[1] if isinstance(x, str)}
             pair = frozenset(ix)
+            file_edges.setdefault(pair, (kw, ix, payload))
             if pair in seen_pairs:
                 bad("EdgeList:edge-twice", str(sorted(pair)))
             seen_pairs.add(pair)
             if not any({hx[x], hx[y]} == set(pair) for hx in hexes for x, y in map(tuple, map(sorted, BM_EDGES))):
                 bad("EdgeList:edge-not-on-a-block-edge", str(sorted(pair)))
+        # the numbers of a curved edge: an arc the user gave by a point prints that point, a spline / polyLine the
+        # user's through points from the first written vertex to the second -- each to 8 decimals (vector_format)
+        SLOT_CORNERS = [(i, (i + 1) % 4) for i in range(4)] + [(4 + i, 4 + (i + 1) % 4) for i in range(4)] + [(i, i + 4) for i in range(4)]
+        declared: Dict[frozenset, list] = {}
+        bj = 0
+        for e in decl["entities"]:
+            for o in e["ops"]:
+                if o["deleted"]:
+                    continue
+                if bj < len(hexes):
+                    for (ca, cb_), eu, kind in zip(SLOT_CORNERS, o.get("edge_user", []), o.get("edge_kinds", [])):
+                        if kind != "line":
+                            # (None: a kind whose points are computed by the library -- origin / angle arcs, curves)
+                            declared.setdefault(frozenset((hexes[bj][ca], hexes[bj][cb_])), []).append((hexes[bj][ca], eu))
+                bj += 1
+        for pair, (kw, ix, payload) in file_edges.items():
+            decl_here = declared.get(pair, [])
+            if any(eu is None for _, eu in decl_here):
+                # another operation declared an origin / angle arc, a projection or a curve between the same two vertices;
+                # the first valid edge wins (EdgeList.add) and its points are computed by the library (C07 / C08)
+                continue
+            cands = [(va, eu) for va, eu in decl_here if eu["kind"] == kw]
+            if not cands or len(pair) != 2:
+                continue  # edges of built-in shapes
+            inner = payload[1]
+            groups = [inner] if kw == "arc" else [g[1] for g in inner if isinstance(g, tuple)]
+            ok_any = False
+            for va, eu in cands:
+                want_pts = eu["pts"] if (kw == "arc" or ix[0] == va) else eu["pts"][::-1]
+                want_txt = [[fmt8(x) for x in p] for p in want_pts]
+                if [list(g) for g in groups] == want_txt:
+                    ok_any = True
+            if not ok_any:
+                va, eu = cands[0]
+                want_pts = eu["pts"] if (kw == "arc" or ix[0] == va) else eu["pts"][::-1]
+                bad(
+                    f"Edge.description:{kw}-points",
+                    f"edge {ix[0]} {ix[1]}: the file lists {[' '.join(map(str, g)) for g in groups]}, the user's points (first to second vertex, %.8f) are "
+                    f"{[' '.join(fmt8(x) for x in p) for p in want_pts]}",
+                )
         for lab in sorted(used - set(geo)):
             owner = "user"
             for e in decl["entities"]:
